@@ -99,6 +99,39 @@ class Decide:
         self.cross = cross
         self.cross_log = []
         self.nprops = 0
+        self.failed_prop = None
+
+    def _independent_of_uninit(self, st, prop, tainted):
+        """True (with a model) iff the violation stands whatever the never-initialised fields hold: the monitor
+        compares whole values, including payload fields of enum variants the code never wrote; those reads are
+        the monitor's, not the program's, so they are quantified universally"""
+        if any(not n.startswith('uninit!') for n in tainted):
+            return None
+        for c in st.pc:
+            if self.ex.consts_of(c) & tainted:
+                if os.environ.get('VERIF_DEBUG'):
+                    print('DEBUG taint in pc:', c, file=sys.stderr)
+                return None
+        tv = {}
+        todo = [prop]
+        seen = set()
+        while todo:
+            x = todo.pop()
+            if x.get_id() in seen:
+                continue
+            seen.add(x.get_id())
+            if z3.is_const(x) and x.decl().kind() == z3.Z3_OP_UNINTERPRETED and x.decl().name() in tainted:
+                tv[x.decl().name()] = x
+            else:
+                todo.extend(x.children())
+        if not tv:
+            return None
+        rng = [self.ex.axioms[n] for n in tv if self.ex.axioms.get(n) is not None]
+        q = z3.ForAll(list(tv.values()), z3.Implies(z3.And(rng) if rng else z3.BoolVal(True), z3.Not(prop)))
+        r, m = self.ex.solve(st, [q])
+        if os.environ.get('VERIF_DEBUG'):
+            print('DEBUG universal query', r, [(n, v.sort()) for n, v in tv.items()], file=sys.stderr)
+        return m if r == 'sat' else None
 
     def require(self, st, prop, what):
         """prop: z3 Bool that must hold on state st (under its path condition).  Returns model or None."""
@@ -121,6 +154,7 @@ class Decide:
             return None
         if r == 'sat':
             self.failed = ('violated', what, m, st)
+            self.failed_prop = prop
             return m
         return None
 
@@ -139,7 +173,8 @@ class Decide:
             elif st.status in ('abort', 'bound', 'diverged'):
                 self.failed = ('inconclusive', '%s: %s' % (st.status, st.info), None, st)
             else:
-                self.failed = ('inconclusive', 'path ended with status %s' % st.status, None, st)
+                where = ['%s bb%s' % (f.fn.name[-50:], f.bb) for f in st.frames][-2:]
+                self.failed = ('inconclusive', 'path ended with status %s (%s) in %s' % (st.status, st.info, where), None, st)
 
     def done(self):
         o = self.ob
@@ -159,9 +194,14 @@ class Decide:
                 for d_ in self.failed[2].decls():
                     if d_.name().startswith(('hv!', 'uninit!')):
                         tainted.add(d_.name())
+            if tainted and self.failed_prop is not None:
+                m2 = self._independent_of_uninit(st, self.failed_prop, tainted)
+                if m2 is not None:
+                    self.failed = ('violated', self.failed[1] + ' (for every content of the fields no code initialises)', m2, st)
+                    tainted = set()
             if tainted:
                 hv = sorted(set(k for kind, *rest in st.notes if kind == 'havoc' for k in rest))
-                self.failed = ('inconclusive', 'counterexample depends on unmodelled calls %s: %s' % (hv[:6], self.failed[1]), None, st)
+                self.failed = ('inconclusive', 'counterexample depends on unmodelled calls %s (values %s): %s' % (hv[:6], sorted(tainted)[:4], self.failed[1]), None, st)
         if self.failed is None:
             o.status = 'holds'
             o.detail = '%d property queries unsat on %d paths' % (self.nprops, o.paths)
